@@ -164,3 +164,7 @@ Proof.
   unfold alg_texts in Ht. destruct (str_is_blank (lookup_name c n)); [discriminate|]. rewrite Hn in Ht.
   injection Ht as <-. cbn in Hst. tauto.
 Qed.
+
+Lemma status_is_function_of_items (p : peer) (d0 : db) :
+  rp_status (report_of p d0) = status_fold exit_GOOD (levels_of (rp_items (report_of p d0))).
+Proof. reflexivity. Qed.
